@@ -54,3 +54,13 @@ MUTANTS += [
        "        raise ValueError(\"category not in top-level categories\")\n\n    @lazyproperty\n    def leaf_count(self):")],
      "R2.1 Categories.leaf_count"),
 ]
+
+MUTANTS += [
+    ("notes-partname-one-arm-not-allocated", "the notes-slide part name comes from the allocator on one arm only",
+     [("src/pptx/parts/slide.py", "            package.next_partname(\"/ppt/notesSlides/notesSlide%d.xml\"),\n",
+       "            (package.next_partname(\"/ppt/notesSlides/notesSlide%d.xml\") if slide_part.partname.idx is None\n             else PackURI(\"/ppt/notesSlides/notesSlide%d.xml\" % slide_part.partname.idx)),\n")],
+     "R2.3 NotesSlidePart._add_notes_slide_part"),
+    ("workbook-blob-memoised", "the workbook bytes of a chart-data object are computed once",
+     [("src/pptx/chart/data.py", "    @property\n    def xlsx_blob(self):", "    @lazyproperty\n    def xlsx_blob(self):")],
+     "R2.1 _BaseChartData.xlsx_blob"),
+]
